@@ -563,7 +563,9 @@ def to_docstring(
                 ).rstrip(),
                 sep=sep,
             )
-            if (intermediate_repr.get("returns") or {"return_type": {}})["return_type"]
+            if (intermediate_repr.get("returns") or {"return_type": {}})[
+                "return_type"
+            ].get("doc")
             else ""
         ),
     )
